@@ -41,6 +41,7 @@ def _mk_classes():
             self.units = c.get("units", "")
             self.after_data = bool(c.get("after_data"))
             self.no_pull = set(c.get("no_pull", []))  # inputs without an initial pull during connect
+            self.finish_after = int(c.get("finish_after") or 0)  # reports FINISHED from its n-th update on
             self.world = world
             self.n_update = 0
             self.n_connect = 0
@@ -101,6 +102,9 @@ def _mk_classes():
             for n in self.outs:
                 self.outputs[n].push_data(self.val(n, t), t)
             self.world.trace.append(("updated", self.name, hs.mins(t)))
+            if self.finish_after and self.n_update >= self.finish_after:
+                # the documented way to say "my series is exhausted" (as CsvReader does on its last row)
+                self.status = fm.ComponentStatus.FINISHED
 
         def _finalize(self):
             self.world.trace.append(("finalize", self.name))
